@@ -8,6 +8,21 @@ from typing import Any, Dict, List, Optional, Tuple
 
 from vf import simnet, wire
 
+# In the simulator no time passes inside one callback, so a record that is stamped when it is parsed instead of with the
+# arrival time of its datagram would look right.  In this family every record comes out of a received datagram and must carry
+# the arrival stamp; a clock read that supplies a *default* creation time (zeroconf._dns) is therefore made to return a
+# quarter of a millisecond later, as a real clock would: nothing changes for code that passes the arrival time along.
+import zeroconf._dns as _zc_dns  # noqa: E402
+
+
+
+def _later_clock() -> float:
+    now = simnet._vnow_ms()
+    return now + 0.25 if now > 0 else now         # (created = 0 is "not given" for the library: instant 0 stays 0)
+
+
+_zc_dns.current_time_millis = _later_clock
+
 T1 = '_http._tcp.local.'
 T2 = '_ipp._tcp.local.'
 IA = 'Alpha._http._tcp.local.'
@@ -94,6 +109,10 @@ def record_id(rec: Any) -> int:
     else:
         return 0
     return KEY_TO_ID.get((low(rec.name), t, rec.class_, rd), 0)
+
+
+def whole(c: float) -> int:
+    return int(c) if c == int(c) else -999
 
 
 def triple(rec: Any) -> List[int]:
@@ -255,9 +274,9 @@ class Recorder:
                 pairs = []
                 for ru in records:
                     o = ru.old
-                    pairs.append({'n': record_id(ru.new), 'nttl': int(ru.new.ttl), 'nc': int(ru.new.created),
+                    pairs.append({'n': record_id(ru.new), 'nttl': int(ru.new.ttl), 'nc': whole(ru.new.created),
                                   'o': record_id(o) if o is not None else 0,
-                                  'oc': int(o.created) if o is not None else 0,
+                                  'oc': whole(o.created) if o is not None else 0,
                                   'ottl': int(o.ttl) if o is not None else 0})
                 rec.ev('lcall', lid=lid, ph='upd', now=int(now), pairs=pairs, view=rec.view())
                 rec.run_script(script, self.calls, 'upd')
